@@ -102,12 +102,14 @@ def make_meaning(rnd, pool, clients, sys_targets=False):
         if sys_targets and rnd.random() < 0.6:
             pats.append(rnd.choice([["?", "s"], ["#"], ["$SYS", "#"], ["?", "#"], ["$SYS", "clients", rnd.choice(clients), "#"],
                                     ["?", "clients"], [""]]))
+        pats.append(["__gg%d" % i])       # makes every token's meaning distinct (the harness maps values back to tokens)
         meaning["gg%d" % i] = {"gg": pats, "lw": []}
     for i in range(5):
         kvs = [{"k": rnd.choice(pool), "v": "w%d" % rnd.randint(0, 3)} for _ in range(rnd.randint(1, 3))]
         if sys_targets and rnd.random() < 0.6:
             kvs.append({"k": rnd.choice([["$SYS", "s"], ["$SYS", "clients", rnd.choice(clients), "graveGoods"], [""], ["a", "?"]]),
                         "v": "evil"})
+        kvs.append({"k": ["__lw", "t%d" % i], "v": "u"})
         meaning["lw%d" % i] = {"gg": [], "lw": kvs}
     meaning["j:[]"] = {"gg": [], "lw": []}      # the empty list parses as either
     return meaning
